@@ -61,7 +61,9 @@ EXTENDS Integers, Sequences, FiniteSets, Rational
 CONSTANTS PRICE,     \* fill prices      (integers; > 0 in C02's configurations - its quantifier says
                      \*                   price > 0 - but C15's also contain 0 and negative prices)
           QTY,       \* fill quantities  (positive integers)
-          FEE,       \* fill fees        (non-negative integers)
+          FEE,       \* fill fees        (integers; >= 0 in C02's model-checking configurations - its quantifier
+                     \*                   says fee >= 0 - but negative fees, i.e. maker rebates, are fills too: the
+                     \*                   formulas are linear in the fee and no guard assumes a sign)
           MARK,      \* market prices    (integers, INCLUDING 0 and negative ones: C15 speaks of "any market
                      \*                   event that yields a price" - spreads and sub-zero futures trade there)
           MaxFills   \* bound on the number of fills of a behaviour (model checking only)
@@ -254,13 +256,15 @@ TypeOK ==
     /\ pos.side \in SIDES \cup {"none"}
     /\ RatFields(pos)
     /\ IsOpen(pos) => IsPos(pos.qty) /\ Geq(pos.qmax, pos.qty)
-                      /\ Geq(pos.feeIn, Zero) /\ Geq(pos.feeOut, Zero) /\ Len(pos.trades) >= 1
+                      /\ Len(pos.trades) >= 1
     /\ ~IsOpen(pos) => pos = NoPos
     /\ IsRational(net) /\ IsRational(cash) /\ IsRational(fees)
     /\ fresh \in {"none", "fill", "mark"}
 
 \* with positive fill prices (C02's quantifier) the average entry price is positive
 AvgPositive == IsOpen(pos) => IsPos(pos.avg)
+\* with non-negative fill fees (C02's quantifier) the accumulated fees are non-negative
+FeesNonNegative == Geq(pos.feeIn, Zero) /\ Geq(pos.feeOut, Zero) /\ Geq(fees, Zero)
 
 (***************************************************************************)
 (* C02                                                                     *)
